@@ -187,7 +187,7 @@ func jsonObserve(txt string) J {
 	o["again"] = true
 	var pval interface{}
 	if m := safely(func() {
-		f := text.NewFile("f", []byte(txt))
+		f := mkFile("f", []byte(txt))
 		// the same file is evaluated twice (fresh context and reader each time), as the example's benchmark does
 		ctx0 := parsley.NewContext(parsley.NewFileSet(f), text.NewReader(f))
 		v0, err0 := parsley.Evaluate(ctx0, jsonP)
